@@ -68,6 +68,9 @@ func runC08(c *core.Ctx) {
 	c08MigrateRepeat(c, sp)
 	c08RestoreMark(c, sp)
 	c08Detach(c, sp)
+	if r := c.P.Pkg(""); r != nil {
+		c08RestoreID(c, r)
+	}
 	if root := c.P.Pkg(""); root != nil {
 		c08Precedence(c, root)
 	}
